@@ -22,6 +22,7 @@ import json
 import random
 import re
 import sys
+import warnings
 from collections import Counter
 from typing import Any, Dict, List, Literal, Optional, Union
 
@@ -53,16 +54,19 @@ ASSUMPTIONS = [
     "wrapper); shown messages = incompatible_call diagnostics on that line",
 ]
 FLOORS = {
-    "quick": {"distinct_nontrivial": 8000, "bodies": 1000, "ref_checked": 30000, "ref_decided": 20000,
-              "law_checked": 8000, "kind_UNKNOWN": 500, "errors_fired": 5000},
-    "thorough": {"distinct_nontrivial": 150000, "bodies": 20000, "ref_checked": 600000, "ref_decided": 400000,
-                 "law_checked": 150000, "kind_UNKNOWN": 10000, "errors_fired": 100000},
+    "quick": {"distinct_nontrivial": 24000, "bodies": 800, "systematic_bodies": 2000, "ref_checked": 50000,
+              "ref_decided": 50000, "law_checked": 15000, "kind_UNKNOWN": 3000, "kind_DEFAULT": 15000,
+              "errors_fired": 25000},
+    "thorough": {"distinct_nontrivial": 300000, "bodies": 12000, "systematic_bodies": 2000, "ref_checked": 700000,
+                 "ref_decided": 650000, "law_checked": 200000, "kind_UNKNOWN": 40000, "kind_DEFAULT": 200000,
+                 "errors_fired": 300000},
 }
 NSHARDS = 16
 WATCHDOG_S = {"quick": 900, "thorough": 7200}
 LINES_PER_MODULE = 320
-MIN_BUDGET = 400          # harness runs per minimisation
-MIN_PER_CLASS = 6         # minimised violations per (oracle, output, direction) class and shard
+MIN_BUDGET = 200          # harness runs per minimisation
+MIN_PER_CLASS = 6         # minimised violations per (oracle, output, direction, shape flags) class and shard
+MIN_TOTAL = {"quick": 70, "thorough": 400}   # minimised violations per shard
 
 
 # ---------------------------------------------------------------------------
@@ -172,6 +176,8 @@ def entry_value(entry: str):
 
     if entry.startswith("T:"):
         return type_value(entry[2:])
+    if entry.startswith("V:"):
+        return _VAL[entry]
     if entry not in _VAL:
         expr, ann, members, cls = ATOMS[entry]
         if cls in ("literal", "enum-literal"):
@@ -181,6 +187,20 @@ def entry_value(entry: str):
         else:
             _VAL[entry] = type_value(ann)
     return _VAL[entry]
+
+
+def narrowed_entries(type_text: str) -> list:
+    """entries for 'an Any argument narrowed to T': one per union member of T"""
+    from pyanalyze.value import flatten_values
+
+    vals = list(flatten_values(type_value(type_text)))
+    if len(vals) == 1:
+        return ["T:" + type_text]
+    out = []
+    for i, v in enumerate(vals):
+        _VAL[f"V:{type_text}#{i}"] = v
+        out.append(f"V:{type_text}#{i}")
+    return out
 
 
 def assignable(type_text: str, entry: str, exclude_any: bool) -> bool:
@@ -196,9 +216,39 @@ def assignable(type_text: str, entry: str, exclude_any: bool) -> bool:
     return not isinstance(res, CanAssignError)
 
 
+def _split_top(s: str, sep: str) -> list:
+    out, depth, cur, i, quote = [], 0, "", 0, None
+    while i < len(s):
+        ch = s[i]
+        if quote:
+            quote = None if ch == quote else quote
+        elif ch in "'\"":
+            quote = ch
+        elif ch in "[(":
+            depth += 1
+        elif ch in "])":
+            depth -= 1
+        if not quote and depth == 0 and s.startswith(sep, i):
+            out.append(cur)
+            cur, i = "", i + len(sep)
+            continue
+        cur += ch
+        i += 1
+    return out + [cur]
+
+
 def norm_members(s: str) -> frozenset:
+    """union members of a printed Value; pyanalyze prints a union of literals merged as Literal[a, b]"""
     s = re.sub(r"Any\[[a-z_]+\]", "Any", harness.normalise_text(s))
-    return frozenset(p.strip() for p in s.split(" | "))
+    out = set()
+    for part in _split_top(s, " | "):
+        part = part.strip()
+        if part.startswith("Literal[") and part.endswith("]"):
+            for item in _split_top(part[8:-1], ", "):
+                out.add("None" if item == "None" else f"Literal[{item}]")
+        else:
+            out.add(part)
+    return frozenset(out)
 
 
 def type_members(text: Optional[str]) -> frozenset:
@@ -385,7 +435,8 @@ def ref_isof(var, ttext, exclude_any, env):
         return [(False, env)]
     out = [(True, env)]
     if isinstance(entry_value(cur), AnyValue) and not isinstance(type_value(ttext), AnyValue):
-        out.append((True, {**env, var: "T:" + ttext}))  # silent: is an Any argument narrowed by a permissive match?
+        # silent: is an Any argument narrowed by a permissive match?  (if so, to each member of T separately)
+        out += [(True, {**env, var: e}) for e in narrowed_entries(ttext)]
     return out
 
 
@@ -439,12 +490,15 @@ def ref_block(block, states, kinds, done):
                     for e in pending:
                         for v, e2 in ref_cond(cond, dict(e), kinds):
                             if v:
-                                nxt |= ref_block(blk, {(_freeze(e2), errs)}, kinds, done)
+                                outs = ref_block(blk, {(_freeze(e2), errs)}, kinds, done)
+                                # silent: does a narrowing made for the branch survive the end of the `if`?
+                                nxt |= outs | {(env, er) for _, er in outs}
                             else:
                                 still.add(_freeze(e2))
                     pending = still
                 for e in pending:
-                    nxt |= ref_block(st[2] or [], {(e, errs)}, kinds, done)
+                    outs = ref_block(st[2] or [], {(e, errs)}, kinds, done)
+                    nxt |= outs | {(env, er) for _, er in outs}
         states = nxt
         if len(states) + len(done) > 200:
             raise Overflow()
@@ -578,7 +632,9 @@ def observe(cases):
         where.append(row)
     source += "\n".join(body) + "\n"
     del _REC[:]
-    res = harness.run(source, extra_scope=SCOPE, check_attributes=False)
+    with warnings.catch_warnings():
+        warnings.simplefilter("ignore", SyntaxWarning)  # `x is 1`: the specification allows `is` with any Literal constant
+        res = harness.run(source, extra_scope=SCOPE, check_attributes=False)
     if res.exception is not None:
         raise RuntimeError(f"pyanalyze raised {res.exception!r}") from res.exception
     rec: dict = {}
@@ -664,6 +720,15 @@ def judge(fn, call, main: Obs, subs: list, stats=None):
         real = (o.members, tuple(o.fired))
         if real in allowed:
             continue
+        if len(allowed) > 1:
+            # where the document leaves a value open pyanalyze may legitimately hold a union there, and then (by the
+            # union rule) produces the union of several permitted outcomes
+            inside = [a for a in allowed if a[0] <= real[0] and set(a[1]) <= set(real[1])]
+            if inside and frozenset().union(*[a[0] for a in inside]) == real[0] and set().union(
+                    *[set(a[1]) for a in inside]) == set(real[1]) and len(set(real[1])) == len(real[1]):
+                if stats is not None:
+                    stats("ref-undecided-mixture", None)
+                continue
         best = min(sorted(allowed, key=repr), key=lambda a: (a[0] != real[0]) + (a[1] != real[1]))
         und = "" if len(allowed) == 1 else f" (one of {len(allowed)} permitted outcomes)"
         if best[0] != real[0]:
@@ -737,8 +802,9 @@ def cond_variants(c):
         if c[2] in ("==", "is"):
             yield ["isof", c[1], f"Literal[{c[3]}]", None]
         else:
+            yield ["not", ["isof", c[1], f"Literal[{c[3]}]", None]]
             yield ["cmp", c[1], "==", c[3]]
-    elif t == "isof" and c[3] is True:
+    elif t == "isof" and c[3] is not None:
         yield ["isof", c[1], c[2], None]
 
 
@@ -752,6 +818,8 @@ def block_variants(block):
             if st[2] is not None:
                 yield block[:i] + st[2] + block[i + 1:]
                 yield block[:i] + [["if", st[1], None]] + block[i + 1:]
+            if len(st[1]) > 1 and st[2] is None:
+                yield block[:i] + [["if", st[1][:-1], st[1][-1][1]]] + block[i + 1:]
             if len(st[1]) > 1:
                 for j in range(len(st[1])):
                     yield block[:i] + [["if", st[1][:j] + st[1][j + 1:], st[2]]] + block[i + 1:]
@@ -810,12 +878,12 @@ def case_variants(fn, call):
         st[2] for st in _walk_stmts(fn["body"]) if st[0] == "err" and st[2]}
     for idx, (name, kind, default, ann) in enumerate(fn["params"]):
         if name not in used:
-            cc = canonical_call(fn, call, drop=(name,)) if kind not in ("va", "vk") else None
             nf = dict(fn, params=fn["params"][:idx] + fn["params"][idx + 1:])
-            if cc is not None and not any(it[0] in ("starunk", "dstarunk") for it in call):
-                yield nf, cc
-            elif kind in ("va", "vk") and bind(nf, call) is not None:
+            if bind(nf, call) is not None:
                 yield nf, call
+            cc = canonical_call(fn, call, drop=(name,))
+            if cc is not None and bind(nf, cc) is not None:
+                yield nf, cc
         if kind in ("po", "ko"):
             ps = [list(p) for p in fn["params"]]
             ps[idx][1] = "pk"
@@ -880,7 +948,7 @@ def violations_of(fn, call):
 def measure(fn, call):
     """lexicographic: canonical argument kinds first (plain positional, positional-or-keyword, is_of_type), then size"""
     return (sum(it[0] != "pos" for it in call), sum(p[1] != "pk" for p in fn["params"]),
-            sum(1 for n, _ in prims_of(fn["body"]) if n == "compare"), size_of(fn, call))
+            sum(1 for n, _ in prims_of(fn["body"]) if n != "is_of_type"), size_of(fn, call))
 
 
 def minimise(fn, call, cls):
@@ -900,13 +968,102 @@ def minimise(fn, call, cls):
                 vs = violations_of(nf, nc)
             except RuntimeError:
                 continue
-            if any(v[:3] == cls and v[5] == nc for v in vs):
+            hit = [v for v in vs if same_class(v, cls) and v[5] == nc]
+            if hit:
                 fn, call, improved = nf, nc, True
+                if cls[2] == "not-permitted":  # an undecided case may become a decided one while shrinking
+                    cls = hit[0][:3]
                 break
-    return fn, call, budget > 0
+    return fn, call, cls, budget > 0
+
+
+def same_class(v, cls) -> bool:
+    # an undecided case ("not-permitted") may turn into a decided one, showing in either output, while it shrinks
+    return v[0] == cls[0] and (v[1:3] == cls[1:3] or cls[2] == "not-permitted")
+
+
+def _always_returns(block) -> bool:
+    for st in block:
+        if st[0] == "ret":
+            return True
+        if st[0] == "if" and st[2] is not None and _always_returns(st[2]) and all(_always_returns(b) for _, b in st[1]):
+            return True
+    return False
+
+
+def _lost_narrowing_shape(block) -> bool:
+    """an `if` that may return and may fall through, followed in the same block by another test of the same parameter"""
+    for i, st in enumerate(block):
+        if st[0] != "if":
+            continue
+        vars_here = {p for _, p in prims_of([st]) if p}
+        later = {p for _, p in prims_of(block[i + 1:]) if p}
+        if vars_here & later and any(x[0] == "ret" for x in _walk_stmts([st])) and not _always_returns([st]):
+            return True
+        if any(_lost_narrowing_shape(b) for _, b in st[1]) or _lost_narrowing_shape(st[2] or []):
+            return True
+    return False
+
+
+def _boolop_shape(node) -> bool:
+    """an and/or in which a value test of a parameter is followed by a further operand"""
+    if isinstance(node, list) and node and isinstance(node[0], str):
+        if node[0] in ("and", "or"):
+            if any(x[0] in ("isof", "cmp") or (x[0] == "not" and x[1][0] in ("isof", "cmp")) for x in node[1][:-1]):
+                return True
+            return any(_boolop_shape(x) for x in node[1])
+        if node[0] == "not":
+            return _boolop_shape(node[1])
+        if node[0] == "if":
+            return any(_boolop_shape(c) or _boolop_shape(b) for c, b in node[1]) or _boolop_shape(node[2] or [])
+        return False
+    return isinstance(node, list) and any(_boolop_shape(x) for x in node)
+
+
+def _overlap_shape(fn, call, b) -> bool:
+    """some is_of_type/compare on a union argument: a member matches, another does not match but 'overlaps' T"""
+    from pyanalyze.value import is_overlapping
+
+    cctx = harness.constructor_kwargs()["checker"]
+    for node in _walk_conds(fn["body"]):
+        if node[0] == "isof":
+            var, ttext, ex = node[1], node[2], node[3] is not False
+        elif node[0] == "cmp":
+            var, ttext, ex = node[1], f"Literal[{node[3]}]", True
+        else:
+            continue
+        entry = b.get(var, (None, None, "?"))[2]
+        members = ATOMS[entry][2] if entry in ATOMS else None
+        if not members:
+            continue
+        ok = [assignable(ttext, m, ex) for m in members]
+        if any(ok) and any(not o and is_overlapping(type_value(ttext), entry_value(m), cctx) for o, m in zip(ok, members)):
+            return True
+    return False
+
+
+def _walk_conds(node):
+    if isinstance(node, list) and node and isinstance(node[0], str):
+        if node[0] in ("isof", "cmp", "kind", "ver"):
+            yield node
+        elif node[0] == "not":
+            yield from _walk_conds(node[1])
+        elif node[0] in ("and", "or"):
+            for x in node[1]:
+                yield from _walk_conds(x)
+        elif node[0] == "if":
+            for c, blk in node[1]:
+                yield from _walk_conds(c)
+                yield from _walk_conds(blk)
+            yield from _walk_conds(node[2] or [])
+    elif isinstance(node, list):
+        for x in node:
+            yield from _walk_conds(x)
 
 
 def mechanism_key(v) -> str:
+    """(oracle, primitive(s) left after minimisation, argument kind of the tested parameter(s), class, output:direction);
+    three mechanisms recognised by the shape of the minimal witness get one name each, whichever output shows them"""
     oracle, output, direction, detail, fn, call = v
     if oracle in ("diagnostics", "harness"):
         return f"{oracle}|{direction}|{output}"
@@ -914,13 +1071,43 @@ def mechanism_key(v) -> str:
     b = bind(fn, call) or {}
     names = sorted({n for n, _ in prims}) or ["no-condition"]
     modes = sorted({b[p][0] for _, p in prims if p in b}) or ["-"]
-    classes = set()
-    for _, p in prims:
-        if p in b and b[p][2] in ATOMS:
-            classes.add(ATOMS[b[p][2]][3])
-    for path in union_positions(call):
-        classes.add("union")
-    return f"{oracle}|{'+'.join(names)}|{'+'.join(modes)}|{'+'.join(sorted(classes)) or '-'}|{output}:{direction}"
+    if oracle == "union-law" and direction == "extra" and _lost_narrowing_shape(fn["body"]):
+        # statements after a partially matching `if` that returned in one branch run again with the un-narrowed union
+        return "union-law|narrowing-lost-after-returning-if|extra"
+    if oracle == "union-law" and direction == "extra" and _overlap_shape(fn, call, b):
+        # the positive branch of a partial match is narrowed by intersection (constrain_value) instead of keeping the
+        # matching members, so a member that did NOT match (float vs int, Any under exclude_any) re-enters it
+        return "union-law|positive-branch-keeps-nonmatching-overlapping-member|extra"
+    if oracle == "union-law" and direction in ("missing", "different") and _boolop_shape(fn["body"]):
+        # a decisive later operand of and/or discards the members split off by an earlier partially matching operand
+        return "union-law|boolop-discards-earlier-partial-match|missing-or-different"
+    if oracle == "ref" and modes == ["default-ellipsis"] and all(n.startswith(("is_of_type", "compare")) for n in names):
+        # the value of an omitted `= ...` parameter is not the annotation
+        return "ref|is_of_type/compare|default-ellipsis|value-is-not-the-annotation"
+    conn = sorted({c for c in _connectives(fn["body"])})
+    any_arg = any(p in b and b[p][2] in ATOMS and ATOMS[b[p][2]][3] == "any" for _, p in prims)
+    if oracle == "union-law":
+        return f"union-law|{'+'.join(conn + names)}|{'+'.join(modes)}|{output}:{direction}"
+    return f"ref|{'+'.join(conn + names)}|{'+'.join(modes)}|{'any' if any_arg else '-'}|{output}"
+
+
+def _connectives(node):
+    if isinstance(node, list) and node and isinstance(node[0], str):
+        if node[0] == "not":
+            yield "not"
+            yield from _connectives(node[1])
+        elif node[0] in ("and", "or"):
+            yield node[0]
+            for x in node[1]:
+                yield from _connectives(x)
+        elif node[0] == "if":
+            for c, blk in node[1]:
+                yield from _connectives(c)
+                yield from _connectives(blk)
+            yield from _connectives(node[2] or [])
+    elif isinstance(node, list):
+        for x in node:
+            yield from _connectives(x)
 
 
 def describe(v) -> str:
@@ -1160,13 +1347,18 @@ def process(ctx, cases, minimised_per_class: dict) -> None:
             outcomes[2].append(call)
         for v in vs:
             ctx.count("violations_raw")
-            cls = v[:3]
+            ctx.histo("violation_class", "|".join(v[:3]))
+            # cap per (class, cheap shape flags): a flood of one mechanism must not use up the budget of another
+            cls = (*v[:3], _lost_narrowing_shape(fn["body"]), _boolop_shape(fn["body"]),
+                   tuple(sorted({m[0] for m in (bind(fn, v[5]) or {}).values()} & {"default-ellipsis"})))
             n = minimised_per_class.get(cls, 0)
-            if n >= MIN_PER_CLASS:
-                ctx.count("violations_not_minimised")
-                continue
             minimised_per_class[cls] = n + 1
-            record(ctx, v)
+            if v[0] == "diagnostics" and n >= 2:
+                ctx.violation(mechanism_key(v), describe(v), witness_of(v))
+            elif n >= ctx.pick(MIN_PER_CLASS, 2 * MIN_PER_CLASS) or ctx.counters.get("violations_minimised", 0) >= MIN_TOTAL[ctx.tier]:
+                ctx.count("violations_not_minimised")
+            else:
+                record(ctx, v)
     for fk, (fn, outs, calls) in per_fn.items():
         prims = prims_of(fn["body"])
         for name, _ in prims:
@@ -1184,23 +1376,129 @@ def process(ctx, cases, minimised_per_class: dict) -> None:
 
 
 def record(ctx, v) -> None:
-    oracle, output, direction, detail, fn, call = v
-    try:
-        mfn, mcall, complete = minimise(fn, call, v[:3])
-        vs = [w for w in violations_of(mfn, mcall) if w[:3] == v[:3] and w[5] == mcall]
-    except RuntimeError:
-        vs, complete = [], False
-    w = vs[0] if vs else v
+    ctx.count("violations_minimised")
+    w, complete = minimal_violation(v)
     if not complete:
         ctx.count("minimisation_budget_exhausted")
-    ctx.violation(mechanism_key(w), describe(w), {"fn": w[4], "call": w[5], "class": list(w[:3])})
+    ctx.violation(mechanism_key(w), describe(w), witness_of(w))
+
+
+def witness_of(v) -> dict:
+    # fn/call as JSON text: core.jsonable() flattens anything nested deeper than 8 levels
+    return {"fn": json.dumps(v[4]), "call": json.dumps(v[5]), "class": list(v[:3]),
+            "source": render_fn(v[4], "f").split("\ndef f(*args")[0] + "\n" + render_call(v[5], "f")}
+
+
+def minimal_violation(v):
+    try:
+        mfn, mcall, cls, complete = minimise(v[4], v[5], v[:3])
+        vs = [w for w in violations_of(mfn, mcall) if same_class(w, cls) and w[5] == mcall]
+    except RuntimeError:
+        vs, complete = [], False
+    return (vs[0] if vs else v), complete
+
+
+# ---------------------------------------------------------------------------
+# systematic part (identical under every seed)
+
+SYS_TYPES = ["int", "str", "None", "float", "bool", "object", "Literal[1]", "Literal['a']", "Optional[int]",
+             "Union[int, str]"]
+SYS_ATOMS = UNION_ATOMS + ["any_"]
+
+
+def _fn1(body, ret=None, ann="object"):
+    return {"params": [["x", "pk", None, ann]], "ret": ret, "body": body}
+
+
+def systematic_cases():
+    """yields (tag, fn, [calls])"""
+    # S1: every primitive value test, both polarities, against every atom
+    conds = []
+    for t in dict.fromkeys(IS_TYPES):
+        conds += [["isof", "x", t, None], ["isof", "x", t, False]]
+    for lit in dict.fromkeys(CMP_LITS):
+        conds += [["cmp", "x", op, lit] for op in CMP_OPS]
+    every = [[["pos", a]] for a in ATOMS]
+    for c in conds:
+        for c2 in (c, ["not", c]):
+            yield "S1", _fn1([["if", [[c2, [["err", 0, None], ["ret", "R0"]]]], None], ["ret", "R1"]]), every
+    # S2: argument kinds, every small signature x generated call shapes
+    probe = lambda p: [  # noqa: E731
+        ["if", [[["kind", "is_provided", p], [["if", [[["kind", "is_positional", p], [["ret", "R0"]]],
+                                                       [["kind", "is_keyword", p], [["ret", "R1"]]]], [["ret", "R2"]]]]]],
+         [["if", [[["kind", "is_positional", p], [["ret", "R3"]]]], None],
+          ["if", [[["kind", "is_keyword", p], [["ret", "R4"]]]], None], ["ret", "R5"]]]]
+    rng = random.Random("C20/systematic")
+    for n in (1, 2):
+        for kinds in itertools.product(["po", "pk", "ko"], repeat=n):
+            if list(kinds) != sorted(kinds, key=["po", "pk", "ko"].index):
+                continue
+            for defaults in itertools.product([None, "1", "..."], repeat=n):
+                for va, vk in itertools.product([False, True], repeat=2):
+                    params = [[nm, k, d, "object"] for nm, k, d in zip("xy", kinds, defaults)]
+                    if va:
+                        idx = max([i for i, p in enumerate(params) if p[1] in ("po", "pk")], default=-1) + 1
+                        params.insert(idx, ["args", "va", None, "object"])
+                    if vk:
+                        params.append(["kwargs", "vk", None, "object"])
+                    if not _params_ok(params):
+                        continue
+                    for p in params:
+                        fn = {"params": params, "ret": None, "body": probe(p[0])}
+                        calls, seen = [], set()
+                        for _ in range(60):
+                            c = gen_call(rng, fn, 0)
+                            if c is not None and json.dumps(c) not in seen and len(calls) < 14:
+                                seen.add(json.dumps(c))
+                                calls.append(c)
+                        yield "S2", fn, calls
+    # S3: two value tests of the same (union / Any) argument: in sequence, nested, under and/or
+    calls = [[["pos", a]] for a in SYS_ATOMS]
+    for t1, t2 in itertools.product(SYS_TYPES, repeat=2):
+        i1, i2 = ["isof", "x", t1, None], ["isof", "x", t2, None]
+        yield "S3seq", _fn1([["if", [[i1, [["ret", "R0"]]]], None], ["if", [[i2, [["ret", "R1"]]]], None],
+                             ["err", 0, None], ["ret", "R2"]]), calls
+        yield "S3nest", _fn1([["if", [[i1, [["if", [[i2, [["ret", "R0"]]]], [["err", 0, None], ["ret", "R1"]]]]]],
+                               None], ["ret", "R2"]]), calls
+    anys = [[["pos", a]] for a in ("any_", "un", "u_ia")]
+    for t1, t2, t3 in itertools.product(SYS_TYPES, SYS_TYPES, ["None", "int", "str"]):
+        for e1, e2 in ((False, False), (False, None)):
+            i1, i2, i3 = ["isof", "x", t1, e1], ["isof", "x", t2, e2], ["isof", "x", t3, False]
+            yield "S3any", _fn1([["if", [[i1, [["if", [[i2, [["ret", "R0"]]]], None]]]], None],
+                                 ["if", [[i3, [["ret", "R1"]]]], None], ["ret", "R2"]]), anys
+    for t1, t2 in itertools.product(SYS_TYPES[:8], repeat=2):
+        for op in ("and", "or"):
+            for n1, n2 in itertools.product([False, True], repeat=2):
+                a = ["not", ["isof", "x", t1, None]] if n1 else ["isof", "x", t1, None]
+                b = ["not", ["isof", "x", t2, None]] if n2 else ["isof", "x", t2, None]
+                for t3 in (t1, t2):
+                    inner = ["if", [[["isof", "x", t3, None], [["ret", "R0"]]]], [["err", 0, None], ["ret", "R1"]]]
+                    yield "S3bool", _fn1([["if", [[[op, [a, b]], [inner]]], [["err", 1, None], ["ret", "R2"]]]]), calls
+
+
+def run_systematic(ctx, minimised) -> None:
+    pending, lines = [], 0
+    for i, (tag, fn, calls) in enumerate(systematic_cases()):
+        if not ctx.mine(i):
+            continue
+        ctx.count("systematic_bodies")
+        ctx.histo("systematic_suite", tag)
+        for c in calls:
+            pending.append((fn, c))
+            lines += 1 + len(member_calls(c))
+        if lines >= LINES_PER_MODULE:
+            process(ctx, pending, minimised)
+            pending, lines = [], 0
+    if pending:
+        process(ctx, pending, minimised)
 
 
 def shard(ctx) -> None:
-    n_bodies = ctx.pick(2400, 48000)
+    n_bodies = ctx.pick(1600, 24000)
     n_calls = 25
     pending, lines = [], 0
     minimised: dict = {}
+    run_systematic(ctx, minimised)
     for i in range(n_bodies):
         if not ctx.mine(i):
             continue
@@ -1220,14 +1518,14 @@ def shard(ctx) -> None:
 
 def replay(witness):
     fn, call = witness["fn"], witness["call"]
+    if isinstance(fn, str):
+        fn, call = json.loads(fn), json.loads(call)
     cls = tuple(witness.get("class") or ())
     vs = violations_of(fn, call)
     vs = [v for v in vs if v[5] == call] or vs
     if cls:
         vs = sorted(vs, key=lambda v: v[:3] != cls)
     for v in vs:
-        mfn, mcall, _ = minimise(v[4], v[5], v[:3])
-        ws = [w for w in violations_of(mfn, mcall) if w[:3] == v[:3] and w[5] == mcall]
-        w = ws[0] if ws else v
+        w, _ = minimal_violation(v)
         return mechanism_key(w), describe(w)
     return None
